@@ -855,39 +855,43 @@ theorem midState_spec {y : Sys} {k : Nat} {status : Status} {newW : List (List R
 /-! ### the restart image -/
 
 /-- **what a restart rebuilds** (`setup_config` + `__init__` + `set_rgen` + `load_paths`): the seed
-    sequence of the configured seed with spawn counter `cstep + #recorded in-flight jobs`; the
-    recorded jobs wait in `locked0` with their ordinals in `locked0Ord`. -/
+    sequence of the configured seed with the spawn counter on record (`current.spawned`), or
+    `cstep + #recorded in-flight jobs` when none is on record; the recorded jobs wait in `locked0`
+    with their ordinals in `locked0Ord`. -/
 theorem restore_spec {im : Image} {n workers tsteps : Nat} {occ : List (List Int)}
     {ensEng : List (List Nat)} {weightOf : Nat → List Rat} {s' : St}
     (h : restore im n workers tsteps occ ensEng weightOf = .ok s') :
-    s'.seed = im.seed ∧ s'.entropy = im.seed ∧ s'.spawned = im.cstep + im.locked.length ∧
+    s'.seed = im.seed ∧ s'.entropy = im.seed ∧
+      s'.spawned = im.spawnedRec.getD (im.cstep + im.locked.length) ∧
       s'.cstep = im.cstep ∧ s'.locked = [] ∧ s'.lockedOrd = [] ∧ s'.locked0 = im.locked ∧
       s'.locked0Ord = im.lockedOrd.map some ∧ s'.restarted = true ∧ s'.rgenRestored = false := by
   unfold restore at h
   simp only [] at h
   obtain ⟨q, ql, qo⟩ := loadPaths_quiet h
-  refine ⟨q.seed, q.entropy, ?_, q.cstep, ql, qo, q.locked0, q.locked0Ord, q.restarted, q.rgenRestored⟩
-  rw [q.spawned]
-  simp [blank]
+  exact ⟨q.seed, q.entropy, q.spawned, q.cstep, ql, qo, q.locked0, q.locked0Ord, q.restarted, q.rgenRestored⟩
 
 theorem persist_fields (s : St) : (persist s).seed = s.seed ∧ (persist s).cstep = s.cstep ∧
     (persist s).locked.length = s.locked.length ∧ (persist s).rngDraws = s.mainDraws ∧
-    (persist s).lockedOrd = s.lockedOrd := by
+    (persist s).lockedOrd = s.lockedOrd ∧ (persist s).spawnedRec = spawnedKey s := by
   simp [persist]
 
-/-- **restart of a state whose record is exact**: if `spawned = cstep + #locked`, the restarted
-    sampler continues the same seed sequence at the same counter, and the ordinals on record wait
-    in `locked0Ord` -/
+/-- **a restart continues the spawn counter, always**: `write_toml` records the counter whenever it
+    is not `cstep + #locked`, so the restarted sampler continues the same seed sequence at the same
+    counter — whatever was or was not re-issued before the stop — and the ordinals on record wait in
+    `locked0Ord` -/
 theorem restore_continues {s s' : St} {n workers tsteps : Nat} {occ : List (List Int)}
     {ensEng : List (List Nat)} {weightOf : Nat → List Rat}
-    (hc : s.spawned = s.cstep + s.locked.length)
     (h : restore (persist s) n workers tsteps occ ensEng weightOf = .ok s') :
     s'.seed = s.seed ∧ s'.entropy = s.seed ∧ s'.spawned = s.spawned ∧ s'.locked = [] ∧
       s'.lockedOrd = [] ∧ s'.locked0.length = s.locked.length ∧ s'.cstep = s.cstep ∧
       s'.locked0Ord = s.lockedOrd.map some := by
   obtain ⟨h1, h2, h3, h4, h5, h5', h6, h7, _, _⟩ := restore_spec h
-  obtain ⟨p1, p2, p3, _, p5⟩ := persist_fields s
+  obtain ⟨p1, p2, p3, _, p5, p6⟩ := persist_fields s
   refine ⟨h1.trans p1, h2.trans p1, ?_, h5, h5', by rw [h6, p3], h4.trans p2, by rw [h7, p5]⟩
-  rw [h3, p2, p3, hc]
+  rw [h3, p2, p3, p6]
+  unfold spawnedKey
+  split
+  · rename_i hc; simp [hc]
+  · simp
 
 end Infretis.Repex
